@@ -83,6 +83,88 @@ pub struct EditCtx<'a> {
     pub offchain: &'a [Slip],
 }
 
+/// A correctly signed transaction of arbitrary *shape*: any transaction type, 0..=5 inputs and
+/// 0..=5 outputs of any slip types (half of them Bound, the type with the longest positional
+/// validation rules), payload of several lengths. Decoded from one integer so that it is part of
+/// the generated case and shrinks with it. Judged for robustness (C11), not for validity.
+pub fn shape_tx(code: u64, signer: &KeyPair, real: Option<&Slip>, ts: u64) -> Transaction {
+    const TT: [TransactionType; 9] = [
+        TransactionType::Normal,
+        TransactionType::Fee,
+        TransactionType::GoldenTicket,
+        TransactionType::ATR,
+        TransactionType::Vip,
+        TransactionType::SPV,
+        TransactionType::Issuance,
+        TransactionType::BlockStake,
+        TransactionType::Bound,
+    ];
+    const ST: [SlipType; 10] = [
+        SlipType::Normal,
+        SlipType::ATR,
+        SlipType::VipInput,
+        SlipType::VipOutput,
+        SlipType::MinerInput,
+        SlipType::MinerOutput,
+        SlipType::RouterInput,
+        SlipType::RouterOutput,
+        SlipType::BlockStake,
+        SlipType::Bound,
+    ];
+    let mut r = code;
+    let mut take = |m: u64| {
+        let x = r % m;
+        r /= m;
+        x
+    };
+    // a third of the shapes are Bound-typed
+    let tsel = take(14);
+    let ttype = if tsel >= 9 { TransactionType::Bound } else { TT[tsel as usize] };
+    let nfrom = take(6) as usize;
+    let nto = take(6) as usize;
+    let data_len = [0usize, 33, 97, 200][take(4) as usize];
+    let use_real = take(2) == 1;
+    let mut t = Transaction::default();
+    t.transaction_type = ttype;
+    t.timestamp = ts;
+    t.data = (0..data_len).map(|i| (i as u8).wrapping_mul(31).wrapping_add(code as u8)).collect();
+    let mut slip_type = |take: &mut dyn FnMut(u64) -> u64| {
+        let d = take(16);
+        if d < 5 {
+            SlipType::Bound
+        } else if d < 8 {
+            SlipType::Normal
+        } else {
+            ST[(d as usize - 8) % ST.len()]
+        }
+    };
+    for i in 0..nfrom {
+        let mut s = Slip::default();
+        s.public_key = signer.0;
+        if let (true, Some(rs)) = (use_real, real) {
+            // somebody else's live output (the signer owns nothing)
+            s.public_key = rs.public_key;
+            s.amount = rs.amount;
+            s.block_id = rs.block_id;
+            s.tx_ordinal = rs.tx_ordinal;
+            s.slip_index = rs.slip_index.wrapping_add(i as u8);
+        }
+        s.slip_type = slip_type(&mut take);
+        s.generate_utxoset_key();
+        t.from.push(s);
+    }
+    for i in 0..nto {
+        let mut s = Slip::default();
+        s.public_key = signer.0;
+        s.amount = if use_real && i == 1 { real.map(|r| r.amount).unwrap_or(0) } else { 0 };
+        s.slip_type = slip_type(&mut take);
+        t.to.push(s);
+    }
+    t.sign(&signer.1);
+    t.generate(&signer.0, 0, 0);
+    t
+}
+
 fn out(pk: SaitoPublicKey, amount: u64) -> (SaitoPublicKey, u64) {
     (pk, amount)
 }
